@@ -80,7 +80,8 @@ def genLen (lim : Option Nat) (small : Nat) (r : Rng) : Nat × Rng :=
   | none =>
     if c = 1 then (0, r1) else let (k, r2) := r1.below (small + 1); (k, r2)
 
-def interesting32 : List Nat := [0, 1, 2, 255, 256, 65535, 65536, 2^31 - 1, 2^31, 2^32 - 1]
+def interesting32 : List Nat := [0, 1, 2, 255, 256, 65535, 65536, 2^24 - 1, 2^24, 2^31 - 1, 2^31, 2^31 + 1, 2^32 - 2, 2^32 - 1,
+  0x7fc00000, 0x7f800000, 0xff800000, 0x7f800001, 0x7ff00000, 0x7ff80000, 0xfff00000]   -- float and double specials (NaNs, infinities)
 
 def genWord (r : Rng) : Nat × Rng :=
   let (c, r1) := r.below 3
